@@ -34,13 +34,14 @@ structure CI0 (d0 : Dom) (s : State) : Prop where
 /-- leaving the Initial mode -/
 theorem CI0.toCB {s : State} (h : CI0 d0 s) {m : Mode} (hm : m ≠ .initial) :
     CB d0 { s with mode := m } ∧ SAnc ({ s with mode := m } : State).dom ({ s with mode := m } : State).openElems := by
-  refine ⟨⟨⟨h.d.inv, h.d.run⟩, ⟨h.docH, h.doc0, ?_, ?_, ?_, ?_, ?_, ?_⟩, ⟨hm, ?_, ?_⟩⟩, ?_⟩
+  refine ⟨⟨⟨h.d.inv, h.d.run⟩, ⟨h.docH, h.doc0, ?_, ?_, ?_, ?_, ?_, ?_, ?_⟩, ⟨hm, ?_, ?_⟩⟩, ?_⟩
   · show ∀ x ∈ s.openElems, _; rw [h.st]; intro x hx; cases hx
   · show ∀ x ∈ s.openElems, _; rw [h.st]; intro x hx; cases hx
   · show ∀ x t, _ ∈ s.activeFormatting → _; rw [h.af]; intro x t hx; cases hx
   · show ∀ x, s.headElem = some x → _; rw [h.head]; intro x hx; cases hx
   · show ∀ x, s.formElem = some x → _; rw [h.form]; intro x hx; cases hx
   · show ∀ x, s.contextElem = some x → _; rw [h.ctx]; intro x hx; cases hx
+  · show ∀ x, s.headElem = some x → _; rw [h.head]; intro x hx; cases hx
   · show s.origMode ≠ _; rw [h.orig]; intro e; cases e
   · show _ ∉ s.templateModes; rw [h.tm]; intro e; cases e
   · show SAnc s.dom s.openElems; rw [h.st]; exact List.Pairwise.nil
